@@ -29,6 +29,10 @@ OPS = {
     'fail_data':  dict(src='R = x5\nX:\ndb 256\n', compress=True),
     'ok_c':       dict(src='A:\naddi x8, x8, 1\nbeq x8, x0, A\nli x9, 0x12345\nB:\ncall A\n', compress=True),
     'ok_u':       dict(src='A:\naddi x8, x8, 1\nbeq x8, x0, A\nli x9, 0x12345\nB:\ncall A\n', compress=False),
+    # no pseudo-instruction at all; a forward branch that only fits c.beqz once the 80 instructions behind it have been compressed (decided in the SECOND compression round)
+    'edge_c':     dict(src='beq x8, x0, done\n' + 'addi x10, x10, 1\n' * 80 + 'done:\nadd x5, x6, x7\n', compress=True),
+    # a -c program that fails inside the pseudo-instruction pass after an earlier pseudo-instruction was expanded
+    'fail_pseudo_c': dict(src='nop\nli x5, NO_SUCH_SYMBOL\n', compress=True),
     'many':       dict(src=''.join('%s:\n%s_K = %d\ndb %d\n' % (n, n, i, i) for i, n in enumerate('zeta alpha mid beta omega gamma y x w q'.split())), nodicts=True),
     # two boards sharing ONE caller-owned include_dirs list object (kept alive for the whole history): each has its own config.asm beside its main file
     'board1':     dict(board=1, compress=False),
